@@ -109,7 +109,13 @@ def gen_convex(r):
         m["grid"] = {"cls": "Geometric", "growth": 2, "local": r.random() < 0.5}
     ops.append({"op": "method", "m": m})
     mode = G.pick(r, ["map", "map", "conv", "loose"])
-    ops.append({"op": "solver", "name": SOLVERS[mode][0], "opts": jcopy(SOLVERS[mode][1])})
+    sopts = jcopy(SOLVERS[mode][1])
+    if SOLVERS[mode][0] == "ipopt" and r.random() < 0.5:
+        # the same options in CasADi's nested form {"ipopt": {...}} instead of dotted keys
+        nested = {k[len("ipopt."):]: v for k, v in sopts.items() if k.startswith("ipopt.")}
+        sopts = {k: v for k, v in sopts.items() if not k.startswith("ipopt.")}
+        sopts["ipopt"] = nested
+    ops.append({"op": "solver", "name": SOLVERS[mode][0], "opts": sopts})
     for p in ps:
         ops.append({"op": "set_value", "p": p, "v": G.rnum(r)})
     for p in pcs:
@@ -302,7 +308,7 @@ class World19:
             # a user who exports again usually still holds the sampled expressions from the first time
             try:
                 args, res = prev["exprs"]
-                f = a.ocp.to_function(step["name"], args, res)
+                f = a.ocp.to_function(step["name"], args, res, *step.get("labels", []))
                 self.probe("to_function_again_same_expressions")
             except Exception:
                 f = None  # they belong to an earlier transcription: sample again
@@ -312,7 +318,9 @@ class World19:
             except KeyError:
                 return "skipped"
             try:
-                f = a.ocp.to_function(step["name"], args, res)
+                f = a.ocp.to_function(step["name"], args, res, *step.get("labels", []))
+                if step.get("labels"):
+                    self.probe("to_function_with_labels")
             except Exception as e:
                 raise Violation("to_function-raises", "to_function(%s, %s) raised %s: %s" % (step["args"], step["results"], type(e).__name__, str(e)[:300]))
         self.funs[step["name"]] = {"f": f, "spec": a.spec.clone(), "step": jcopy(step), "exprs": (args, res)}
@@ -386,8 +394,19 @@ class World19:
         if not isinstance(got, (list, tuple)):
             got = [got]
         got = [np.atleast_2d(np.array(ca.DM(g), dtype=float)) for g in got]
+        if fstep.get("labels"):
+            li, lo = fstep["labels"]
+            try:
+                byname = f.call(dict((n_, ca.DM(np.array(v, dtype=float)) if not isinstance(v, (int, float)) else ca.DM(v)) for n_, v in zip(li, vals)))
+                got_named = [np.atleast_2d(np.array(ca.DM(byname[n_]), dtype=float)) for n_ in lo]
+            except Exception as e:
+                raise Violation("function-raises", "evaluating the function by labels raised %s: %s" % (type(e).__name__, str(e)[:300]))
+            for g_pos, g_nam, n_ in zip(got, got_named, lo):
+                if g_pos.shape != g_nam.shape or not np.allclose(g_pos, g_nam, rtol=0, atol=0, equal_nan=True):
+                    raise Violation("to_function-labels", "output %s differs between positional and labelled evaluation" % n_)
         so = ent["spec"].solver
-        mode = "map" if so[0] == "sqpmethod" else ("loose" if so[1].get("ipopt.tol", 0) >= 1e-3 else "conv")
+        tol_opt = so[1].get("ipopt.tol", so[1].get("ipopt", {}).get("tol", 0)) if so[0] == "ipopt" else 0
+        mode = "map" if so[0] == "sqpmethod" else ("loose" if tol_opt >= 1e-3 else "conv")
         tol = {"map": 1e-9, "conv": 2e-5, "loose": 1e-6}[mode]
         variants = [("at-creation", ent["spec"])]
         if self.act.spec.to_json() != ent["spec"].to_json():
@@ -464,7 +483,13 @@ def gen_run(r, w, emit):
         emit({"op": "set_initial", "x": x, "g": ["expr", G.gen_time_expr(r)]})
     info["guessed"] = set(x for x, g in sp.initial)
     args, res, vals = gen_to_function(r, info)
-    emit({"op": "to_function", "name": "F1", "args": args, "results": res})
+    tf = {"op": "to_function", "name": "F1", "args": args, "results": res}
+    if r.random() < 0.4:
+        # labels for inputs and outputs, deliberately not in alphabetical order
+        li = ["in_%s%d" % (chr(ord("z") - i % 26), i) for i in range(len(args))]
+        lo = ["out_%s%d" % (chr(ord("z") - i % 26), i) for i in range(len(res))]
+        tf["labels"] = [li, lo]
+    emit(tf)
     for i in range(r.randint(0, 3)):
         history_step()
     emit({"op": "evaluate", "name": "F1", "vals": vals})
@@ -472,7 +497,7 @@ def gen_run(r, w, emit):
         # the function is exported again (same name, same expressions) after unlisted values have changed
         for i in range(r.randint(1, 3)):
             history_step()
-        emit({"op": "to_function", "name": "F1", "args": args, "results": res})
+        emit(dict(tf))
         emit({"op": "evaluate", "name": "F1", "vals": [gen_val(r, a, info) for a in args]})
     if r.random() < 0.4:
         _, _, vals2 = gen_to_function(random.Random(r.randrange(1 << 30)), info)
